@@ -2,7 +2,7 @@ SPECIFICATION Spec
 CONSTANTS
   LongLen = 5
   Layouts <- MCLayouts
-  BaseLens = {0, 1, 2, 4, 5, 6, 9, 12}
+  BaseLens = {0, 1, 4, 5, 6, 9}
   Wipes = {}
   Variants = {"asis", "fixed"}
   Cuts = FALSE
@@ -10,9 +10,9 @@ CONSTANTS
   MaxFaults = 1
   MaxRetry = 1
   Kinds = {"T2", "T1S", "T1D", "T512"}
-  Sizes = {1, 2, 3, 4, 5}
-  Pads = {0, 1, 2, 3, 4, 5, 6, 7}
-  Props = {0, 77, 84, 113}
+  Sizes = {1, 2, 3, 5}
+  Pads = {0, 1, 2, 3, 5, 7}
+  Props = {0, 77, 113}
   CtlFroms = {2, 4, 9, 14}
   MemSizes = {1, 3, 0}
   LockBits = {1, 7, 9, 12, 15, 0}
